@@ -54,7 +54,7 @@ def run(tier, seed, work):
     # and refunded withdrawals, more than 16 unlocks and claims due at once); a node that dies or a block that cannot be processed
     # under such load is a violation here as well (the verdicts of these histories belong to C03 / C05 / C06 / C11 ...)
     from checks import bridge_common as bc, locking_common as lc
-    heavy = bc.jobs("c19brburst", seed + 11, 3 if quick else 15, 40, 4 if quick else 8, mode="burst") + lc.jobs("c19lkburst", seed + 12, 3 if quick else 15, 30, 2 if quick else 4, 1, "burst")
+    heavy = bc.jobs("c19brburst", seed + 11, 3 if quick else 15, 40, 8 if quick else 12, mode="burst") + lc.jobs("c19lkburst", seed + 12, 3 if quick else 15, 30, 2 if quick else 4, 1, "burst")
     heavy += lc.jobs("c19lk", seed + 13, 3 if quick else 15, 30, 4 if quick else 8, 1) + lc.jobs("c19lk", seed + 14, 3 if quick else 15, 30, 4 if quick else 8, 2)   # ordinary locking histories: any halt in them counts
     try:
         hp = verif.run_drivers(binary, heavy, work)
